@@ -20,17 +20,21 @@ VARIANTS = ['none', 'correct', 'corrupted', 'other_spi', 'other_nonce', 'other_a
 
 def junk(p, n, base, secret):
     """n half-open entries at B: copies of A's real IKE_SA_INIT request under other initiator SPIs (each is answered
-    and stays INIT_RES_SENT); once the threshold is crossed the copies carry the cookie B would ask for.
+    and stays INIT_RES_SENT); once the responder asks for a cookie, the copy is sent again with the cookie B asked for
+    (as an honest initiator does - the harness does not compute cookies here).
     (Until fix 73b0c79 a bare header without the I flag was enough, finding F20.)"""
     from message import Message, Payload, PayloadNOTIFY
     for k in range(n):
         m = Message.parse(base)
         m.spi_i = bytes([0x70 + k]) * 8
-        if sum(1 for s in p.B.controller.ike_sas if int(s.state) < 10) + 1 > 10:
-            nonce = m.get_payload(Payload.Type.NONCE).nonce
-            ck = hmac.new(secret, m.spi_i + nonce + ip_address(IPA).packed, hashlib.sha256).digest()
-            m.payloads.insert(0, PayloadNOTIFY(0, PayloadNOTIFY.Type.COOKIE, b'', ck))
-        p.B.datagram(IPB, IPA, bytes(m.to_bytes()))
+        out = p.B.datagram(IPB, IPA, bytes(m.to_bytes()))
+        if out:
+            r = Message.parse(out[0][2])
+            ck = [pl for pl in r.payloads if pl.type == Payload.Type.NOTIFY
+                  and pl.notification_type == PayloadNOTIFY.Type.COOKIE]
+            if ck:
+                m.payloads.insert(0, PayloadNOTIFY(0, PayloadNOTIFY.Type.COOKIE, b'', ck[0].notification_data))
+                p.B.datagram(IPB, IPA, bytes(m.to_bytes()))
     p.sim.net.clear()
 
 
